@@ -19,7 +19,8 @@ CASE_TIMEOUT = 60
 RULE = ("cases: (i) recipe = reference graph over 2-7 tables (acyclic / self loops / 2- and 3-cycles / random; forward, "
         "nickname, nested, friend, random_reference, literal {object,id} and two-target references; update keys, hidden "
         "tables and fields, Account/PersonContact/Contact, record-type columns, count 0, optional load declaration file) "
-        "run through generate_data(generate_cci_mapping_file=...) fresh (1 and 2 iterations) and as 1+1 continuation; "
+        "run through generate_data(generate_cci_mapping_file=...) fresh (1, 2, 3 iterations) and as 1+1 / 1+1+1 continuation chains "
+        "(just_once templates own friends / nested objects of other tables whose references exist in the first run only); "
         "the YAML is parsed back and compared with the model's mapping, the recorded dependencies with the references "
         "seen by the output stream; (ii) sort_dependencies on dependency graphs over <= 4 tables (exhaustive edge sets, "
         "sampled declared subsets, unknown targets); (iii) _table_is_free.  non-trivial: a recipe that completes and whose "
@@ -198,6 +199,34 @@ def gen_recipe(rng):
         if lits and rng.random() < 0.25:
             tp["ukey"] = rng.choice(lits)
             feats.add("update_key")
+    # rows of OTHER tables that exist only because of a just_once template (its friends, objects nested in
+    # its fields): they are created in the first run only, so the references they hold reach a continued run
+    # solely through the continuation file
+    for t in order:
+        tp = tpls[t]
+        if not tp["once"] or rng.random() < 0.25:
+            continue
+        earlier = [u for u in order if pos[u] < pos[t] and (tpls[u]["count"] is None or tpls[u]["count"] > 0)]
+        targets = [t] + earlier
+        nonce = [u for u in names if not u.startswith("__") and u != t]
+        for k in range(rng.randint(1, 2)):
+            # a dedicated table, or a table the recipe also fills elsewhere (the field name is unique either way)
+            table = rng.choice(["K1", "K2"]) if (rng.random() < 0.6 or not nonce) else rng.choice(nonce)
+            tgt = rng.choice(targets)
+            kind = rng.choice(["ref", "ref", "ref", "objref"] + (["randref"] if tgt in earlier and not tpls[tgt]["once"] else []))
+            fd = ["ref", tgt] if kind == "ref" else (["objref", tgt, 1] if kind == "objref" else ["randref", tgt])
+            child = {"table": table, "nick": None, "once": False, "count": rng.choice([None, None, 2]), "ukey": None,
+                     "fields": [[f"o{k}", fd]] + ([["name", ["lit", "once-child"]]] if rng.random() < 0.5 else []),
+                     "friends": []}
+            if rng.random() < 0.6:
+                tp["friends"].append(child)
+                feats.add("friend_of_just_once")
+            else:
+                tp["fields"].append([f"on{k}", ["nested", child]])
+                feats.add("nested_in_just_once")
+            if rng.random() < 0.3:      # one level deeper: a friend of the friend
+                child["friends"].append({"table": "K3", "nick": None, "once": False, "count": None, "ukey": None,
+                                         "fields": [["o9", ["ref", table]]], "friends": []})
     stmts = []
     for t in order:
         stmts.append(tpls[t])
@@ -236,7 +265,10 @@ def gen_recipe(rng):
                     d["batch_size"] = rng.choice([10, 200])
             if len(d) > 1:
                 decls.append(d)
-    return {"kind": "recipe", "recipe": {"stmts": stmts}, "decls": decls, "features": sorted(feats)}
+    chain3 = rng.random() < (0.6 if "just_once" in feats else 0.15)
+    if chain3:
+        feats.add("chain_1+1+1")
+    return {"kind": "recipe", "recipe": {"stmts": stmts}, "decls": decls, "chain3": chain3, "features": sorted(feats)}
 
 
 def gen_sort_case(rng, names, edges, declared_for=(), extra_targets=False, empty_inferred_keys=False):
@@ -575,10 +607,19 @@ def run_impl(case):
             fresh2 = one_run(text, decl_path, 2)
             run1 = one_run(text, decl_path, 1, want_cont=True)
             run2 = None
+            chain3 = bool(case.get("chain3"))
             if "err" not in run1:
-                run2 = one_run(text, decl_path, 1, continuation=run1.pop("cont"))
+                run2 = one_run(text, decl_path, 1, continuation=run1.pop("cont"), want_cont=chain3)
             run1.pop("cont", None)
-            return {"fresh2": fresh2, "run1": run1, "run2": run2}
+            out = {"fresh2": fresh2, "run1": run1, "run2": run2}
+            if chain3:
+                out["fresh3"] = one_run(text, decl_path, 3)
+                out["run3"] = None
+                if run2 is not None and "err" not in run2:
+                    out["run3"] = one_run(text, decl_path, 1, continuation=run2.pop("cont"))
+            if run2 is not None:
+                run2.pop("cont", None)
+            return out
         finally:
             if d:
                 shutil.rmtree(d, ignore_errors=True)
@@ -670,10 +711,17 @@ def coq_case(case, obs):
         r = _run_coq(obs["run1"], [], False)
         if r:
             runs.append(r)
-        if obs.get("run2") is not None and obs["run1"].get("cont_deps") is not None:
-            r = _run_coq(obs["run2"], obs["run1"]["cont_deps"], True)
-            if r:
-                runs.append(r)
+        r = _run_coq(obs.get("fresh3"), [], False)
+        if r:
+            runs.append(r)
+        for prev, cur in (("run1", "run2"), ("run2", "run3")):
+            pr, cu = obs.get(prev), obs.get(cur)
+            if pr is None or pr.get("cont_deps") is None:
+                continue
+            if cu is not None:
+                r = _run_coq(cu, pr["cont_deps"], True)
+                if r:
+                    runs.append(r)
         if not runs:
             return None
         tpls = C.clist(f"(mkTpl {_s(t)} {C.copt(k, _s)} {C.clist(_s(f) for f in fs)})"
@@ -808,7 +856,8 @@ def oracle(case, obs):
         return None
     if kind == "recipe":
         fresh2, run1, run2 = obs["fresh2"], obs["run1"], obs.get("run2")
-        for label, r in (("fresh2", fresh2), ("run1", run1), ("run2", run2)):
+        for label, r in (("fresh2", fresh2), ("run1", run1), ("run2", run2),
+                         ("fresh3", obs.get("fresh3")), ("run3", obs.get("run3"))):
             # a failure of the run itself (before any mapping is generated) is not this property's subject
             if r is not None and "err" in r and r["err"] != "DGE" and r.get("in_mapping"):
                 return f"internal-error[{label}]: mapping generation raised {r['err']}: {r.get('msg', '')[:120]}"
@@ -835,10 +884,28 @@ def oracle(case, obs):
                 i = next((k for k, (x, y) in enumerate(zip(a, b)) if x != y), min(len(a), len(b)))
                 return (f"continuation: mapping of 2 uninterrupted iterations differs from 1+1 continued: step {i}: "
                         f"{a[i] if i < len(a) else None} vs {b[i] if i < len(b) else None}")
-            if (fresh2.get("deps") is not None and run2.get("deps") is not None
-                    and sorted(map(tuple, fresh2["deps"])) != sorted(map(tuple, run2["deps"]))):
-                return (f"continuation: dependencies of the continued run differ: "
-                        f"{sorted(map(tuple, fresh2['deps']))} vs {sorted(map(tuple, run2['deps']))}")
+        # (the content of the continuation file itself is not judged: a change that prunes dependencies which
+        # the continued run is certain to record again keeps every mapping identical)
+        # 1+1+1 chain against 3 uninterrupted iterations
+        fresh3, run3 = obs.get("fresh3"), obs.get("run3")
+        if fresh3 is not None and "mapping" in fresh3 and run2 is not None and "mapping" in run2:
+            msg = check_mapping_rules(case["recipe"], fresh3["mapping"], fresh3["refs"], "fresh3")
+            if msg:
+                return msg
+            if run3 is None or "mapping" not in run3:
+                if run3 is not None and run3.get("err") == "DGE" and not run3.get("in_mapping"):
+                    return None
+                return (f"continuation: 3 uninterrupted iterations wrote a mapping, the 1+1+1 chain did not: "
+                        f"{run3 and run3.get('err')}: {run3 and run3.get('msg', '')[:100]}")
+            msg = check_mapping_rules(case["recipe"], run3["mapping"],
+                                      run1["refs"] + run2["refs"] + run3["refs"], "continued3")
+            if msg:
+                return msg
+            if run3["mapping"] != fresh3["mapping"]:
+                a, b = fresh3["mapping"], run3["mapping"]
+                i = next((k for k, (x, y) in enumerate(zip(a, b)) if x != y), min(len(a), len(b)))
+                return (f"continuation: mapping of 3 uninterrupted iterations differs from the 1+1+1 chain: step {i}: "
+                        f"{a[i] if i < len(a) else None} vs {b[i] if i < len(b) else None}")
         return None
     raise ValueError(kind)
 
